@@ -88,6 +88,11 @@ impl CacheRegion {
   pub fn set_bank(&mut self, bank: u16) {
     self.current_bank = bank;
   }
+
+  #[cfg(gb_dynarec_verif)]
+  pub fn verif_current_bank(&self) -> u16 {
+    self.current_bank
+  }
 }
 
 /// CachedBlocks stores individual lookup caches for each region of memory that
@@ -102,6 +107,12 @@ pub struct CachedBlocks {
 }
 
 impl CachedBlocks {
+  /// The two ROM regions: (rom_low, rom_high)
+  #[cfg(gb_dynarec_verif)]
+  pub fn verif_rom_regions(&self) -> (&CacheRegion, &CacheRegion) {
+    (&self.rom_low, &self.rom_high)
+  }
+
   pub fn new() -> Self {
     Self {
       rom_low: CacheRegion::new(0),
